@@ -80,7 +80,14 @@ fn real_main(args: Vec<String>) -> i32 {
                     }
                 }
             }
-            match prop.as_str() {
+            // a panic of the crate inside the harness's own generator/oracle code (outside an operation, where it is caught
+            // per line) must not kill the run: it becomes an oracle failure naming what was being prepared
+            let known = ["C01","C02","C03","C04","C05","C06","C07","C08","C09","C10","C11","C12","C13","C14","C15","C16","C17","C18","C19"];
+            if !known.contains(&prop.as_str()) {
+                eprintln!("unknown property {}", prop);
+                return 2;
+            }
+            let res = std::panic::catch_unwind(std::panic::AssertUnwindSafe(|| match prop.as_str() {
                 "C01" => props::c01(&mut c),
                 "C02" => props::c02(&mut c),
                 "C03" => props::c03(&mut c),
@@ -99,11 +106,13 @@ fn real_main(args: Vec<String>) -> i32 {
                 "C16" => props3::c16(&mut c),
                 "C17" => props3::c17(&mut c),
                 "C18" => props::c18(&mut c),
-                "C19" => props::c19(&mut c),
-                _ => {
-                    eprintln!("unknown property {}", prop);
-                    return 2;
-                }
+                _ => props::c19(&mut c),
+            }));
+            if let Err(e) = res {
+                let msg = e.downcast_ref::<String>().cloned().or_else(|| e.downcast_ref::<&str>().map(|x| x.to_string())).unwrap_or_default();
+                let last = c.last_op.clone();
+                c.fail(&format!("the crate panicked while the harness was preparing inputs or expected values (outside an operation): {} — \
+                                 last operation issued before the panic is given", msg), &[last]);
             }
             c.finish(dir);
             0
